@@ -64,15 +64,18 @@ AgreeOk(e) ==
 (*       "absent-outfull" / "file-outfull" (absent / existing, and the command's stdout accepts no data)                            *)
 (* The property does not say WHICH of its two outcomes a run must take when only the messages cannot be printed, nor that a        *)
 (* failure may not be a panic: only that the outcome is one of the two.                                                            *)
+(*       "absent-fsize" / "file-fsize" (absent / existing regular file, and the process cannot write a byte to any regular file)    *)
 RegularDest == {"absent", "file", "longer", "nonutf8", "longutf8", "absent-outfull", "file-outfull"}
+Unwritable  == {"devfull", "nodir", "absent-fsize", "file-fsize"}
 AtomicOk(e) ==
   LET ok == Accepts(e.ast, e.stack) IN
   /\ (e.code = 0 => /\ ok /\ e.dest \in RegularDest /\ e.after = ObjectBytes(e.ast))
   /\ (e.code # 0 => e.after = e.before)
   /\ (~ok => e.code # 0)
-  /\ (e.dest \in {"devfull", "nodir"} => e.code # 0)
-  (* system-call order: nothing is created or truncated before assembly has fully succeeded *)
-  /\ (~ok => e.opens = 0)
+  /\ (e.dest \in Unwritable => e.code # 0)
+  /\ e.litter = 0                      \* no temporary file is left next to the destination
+  (* system-call order (when strace could observe it): nothing is created or truncated before assembly has fully succeeded *)
+  /\ (~ok /\ e.opens >= 0 => e.opens = 0)
 
 (* ---- C18: feature gate at the command line ---- *)
 GateOk(e) ==
